@@ -95,12 +95,36 @@ def h_amapping(cls, name, params, patch, spname, names):
     return str(_analytic_lowering(cls, name, params, patch, spname, names)[-1])
 
 
+def _order_queries(which):
+    """maximal derivative orders / symbol names of kernels over the SAME objects (Omega 2-D, V, u, v, alpha)"""
+    from sympde.topology import Domain, ScalarFunctionSpace, elements_of
+    from sympde.topology.derivatives import dx, dy, get_max_partial_derivatives
+    from sympde.topology.mapping import SymbolicExpr
+    from sympde.core import Constant
+    D = Domain('Omega', dim=2)
+    V = ScalarFunctionSpace('V', D)
+    u, v = elements_of(V, names='u,v')
+    alpha = Constant('alpha')
+    kernels = {"small": dx(dx(u)) * v, "big": dx(dx(u)) * v + alpha * dy(u) * v + dy(dx(v)) * u, "other": dy(dy(u)) * dx(v)}
+    out = []
+    for w in which:
+        e = kernels[w]
+        out.append("%s %s %s %s" % (w, sorted(get_max_partial_derivatives(e).items()),
+                                    sorted(get_max_partial_derivatives(e, u).items()), SymbolicExpr(e)))
+    return out
+
+
+def h_orders(which):
+    """queries about other kernels over the same objects, earlier in the session"""
+    return _order_queries(which)
+
+
 def h_target(name, k, dim):
     """the target's own code run earlier with another dimension: the sharpest name collision"""
     return TARGETS[name](k, dim)
 
 
-HOPS = {"amapping": h_amapping, "target": h_target, "domain": h_domain, "space": h_space, "form": h_form, "mapping": h_mapping, "join": h_join,
+HOPS = {"orders": h_orders, "amapping": h_amapping, "target": h_target, "domain": h_domain, "space": h_space, "form": h_form, "mapping": h_mapping, "join": h_join,
         "union": h_union, "clear": clear}
 
 
@@ -351,7 +375,11 @@ def t_analytic(k):
     return [str(res), str(M.jacobian_expr)], [], []
 
 
-TARGETS = {"attributes": t_attributes, "ring": t_ring, "analytic": t_analytic, "iface_mapped": t_iface_mapped, "shared_bc": t_shared_bc, "bilinear": t_bilinear, "vector3d": t_vector3d, "logical": t_logical, "join": t_join, "union": t_union,
+def t_orders(k):
+    return _order_queries(["small"]), [], []
+
+
+TARGETS = {"orders": t_orders, "attributes": t_attributes, "ring": t_ring, "analytic": t_analytic, "iface_mapped": t_iface_mapped, "shared_bc": t_shared_bc, "bilinear": t_bilinear, "vector3d": t_vector3d, "logical": t_logical, "join": t_join, "union": t_union,
            "equation": t_equation, "norm": t_norm, "polar": t_polar}
 
 
